@@ -879,7 +879,26 @@ func (c *Ctx) ruleRecoverDiscipline() {
 		})
 		_ = errNamed
 		key := f.Name()
+		// a function without results cannot report through them: a handler that stores an error into a field
+		// (of the receiver, of a captured object) keeps the failure where the callers of the object read it
+		storesErrField := false
+		if f.Decl.Type.Results == nil || len(f.Decl.Type.Results.List) == 0 {
+			ast.Inspect(fl.Body, func(n ast.Node) bool {
+				if as, ok := n.(*ast.AssignStmt); ok {
+					for _, l := range as.Lhs {
+						if sel, ok := ast.Unparen(l).(*ast.SelectorExpr); ok {
+							if t := pk.TypesInfo.TypeOf(sel); t != nil && isErrorLike(t) {
+								storesErrField = true
+							}
+						}
+					}
+				}
+				return true
+			})
+		}
 		switch {
+		case storesErrField && bad == "":
+			r.Ok("C01-RECOVER-RESULT", key, "the function has no results; the handler stores the failure into an error field of the object", c.pos(fl.Pos()))
 		case bad != "":
 			r.Bad("C01-RECOVER-RESULT", key, "the recover handler assigns the local variable `"+bad+"`, not a named result: after a panic the function returns the zero values of its results (nil, nil) and the caller goes on with a nil value", c.pos(fl.Pos()))
 		case !assignsErr:
